@@ -1246,6 +1246,11 @@ impl StateMachine for FileStateMachine {
                     }
                 }
             }
+            // Advance last_applied before the write lock is released: scan_prefix reads entries and
+            // revision under the read lock, so it sees either both or neither.
+            if let Some(log_id) = highest_log_id {
+                self.update_last_applied(log_id);
+            }
         } // Lock released immediately - no awaits inside!
         #[cfg(deventlab_d_engine_verif)]
         verif_kv_points::hit("file.apply.after_mem");
